@@ -323,3 +323,18 @@ prop(
     trusted_extra=["syscall interposition and tracker as for C02/C12", "the repository's own try_io failure injection (instrumentation feature)"],
     timeout={"quick": 3000, "thorough": 20000},
 )
+
+prop(
+    id="C14", module="Properties.C14", vfile="Properties/C14.v", level="proof", subcmd="c14",
+    theorems=["C14_accepted_table_is_partitioned", "C14_no_slot_twice", "C14_no_slot_leaked"],
+    counts={"quick": 640, "thorough": 40000, "search": 3200},
+    rule="histories from six generators in turn (mixed hash/btree columns; counted columns; index growth with 66-90 keys sharing an index page; btree columns grown to 40-130 keys and thinned out; "
+         "histories with drops at random pipeline states; value-size classes incl. multi-part chains), every third one interrupted at a random step by a process crash (directory copied while "
+         "the handle is open, the copy opened: recovery), then drained and dropped; the harness reads every value-table file of every column itself and classifies every slot below the fill "
+         "mark from its first bytes: one case per table for the extracted checker; per column the number of value chains is compared with what the live content needs; value iteration of every "
+         "hash column is compared with the live keys. distinct = histories",
+    assumptions=["live content is taken from reads through a fresh handle (their correctness is the subject of C01/C04/C07)",
+                 "the index-entry-resolves-to-its-own-key clause is covered through reads (every live key is found) and the entry codec proofs of C09, not by a raw index walk",
+                 "multitree node counts are not part of this check (entry counts of multitree columns: C10)"],
+    explanation="a checker for raw value-table dumps (free-list walk, chain walks, every slot exactly once) proved sound for all dumps; the btree half is the proved checker of C04",
+)
